@@ -189,11 +189,21 @@ func TestC06(t *testing.T) {
 	// sum() and count() over nodes with numeric and non-numeric text
 	runProp(t, "sum", 64000, 500000, func(t *rapid.T) {
 		n := rapid.IntRange(0, 12).Draw(t, "nodes")
+		if rapid.IntRange(0, 399).Draw(t, "manyNodes") == 0 {
+			// every node counts, also the 1025th
+			n = []int{255, 257, 1023, 1025, 1026, 1027, 2049}[rapid.IntRange(0, 6).Draw(t, "manyNodesN")]
+		}
 		ev := []xmodel.Event{{K: "S", Local: "r"}}
 		var texts []string
 		exact := true
 		for i := 0; i < n; i++ {
 			s := c06Texts[rapid.IntRange(0, len(c06Texts)-1).Draw(t, "text")]
+			if n > 100 {
+				s = "1" // (exact, so that the order of addition does not matter) ...
+				if i >= n-3 {
+					s = []string{"7", "abc", "1000"}[(n-1-i+n)%3] // ... and the last ones decide
+				}
+			}
 			texts = append(texts, s)
 			if s == "0.1" || s == "0.2" || len(s) > 20 && len(s) < 300 {
 				exact = false // (the out-of-range numerals are +-Infinity or 0: exact)
